@@ -18,7 +18,7 @@ SIG = {
     'foldlw': ['G', 'IT'], 'foldrw': ['IT', 'G'], 'iterp': ['IT'],
     'recvia': 'GG', 'recskip': 'GGGV', 'recretry': 'GGG', 'label': 'NBG', 'maperr': 'NG',
     'withctx': 'VG', 'iwctx': 'GG', 'twctx': 'GG', 'mapctx': 'XG', 'cfgjust': 'CL', 'withstate': 'G',
-    'memo': 'NG', 'call': 'N', 'boxed': 'G',
+    'memo': 'NG', 'memonest': 'NG', 'memozst': 'N', 'lazy': 'G', 'call': 'N', 'boxed': 'G',
     # iterators
     'rep': 'GNO', 'sep': 'GGNOBB', 'enum': ['IT'], 'ornotit': 'G', 'intoiter': 'G', 'thenit': ['IT', 'IT'],
     'cfgrep': ['C', 'IT'], 'trycfgrep': ['N', 'IT'],
